@@ -46,7 +46,14 @@ R12 == {C("callnonfn", t, "", "", t # "fn") : t \in {"fn", "i32", "str", "struct
 R13 == {C("unhandled", callee, ar, use, use \in {"let", "arg", "stmt", "ret"}) :
             callee \in {"fn", "method", "closure"}, ar \in {"0", "1", "2"}, use \in {"let", "arg", "stmt", "ret", "caught"}}
 R14 == {C("bang", host, "", "", host # "resultfn") : host \in {"resultfn", "voidfn", "valuefn", "closure"}}
-Rules == R1 \cup R2 \cup R3 \cup R4 \cup R5 \cup R6 \cup R7 \cup R8 \cup R9 \cup R10 \cup R11 \cup R12 \cup R13 \cup R14
+(* a name is visible from its declaration to the end of the block that declares it (and in nested blocks);
+   shape = where the declaration and the use are relative to each other *)
+ScopeLegal == {"same", "inner", "inner_closure"}
+ScopeIll == {"then_else", "then_elseif_cond", "then_elseif_body", "then_after", "else_after", "elseif_else", "while_after",
+             "for_after", "forvar_after", "block_after", "arm_other", "arm_after", "closure_after", "catch_after",
+             "catchvar_after", "fn_other", "param_other"}
+R15 == {C("scope", sh, "", "", sh \in ScopeIll) : sh \in ScopeLegal \cup ScopeIll}
+Rules == R15 \cup R1 \cup R2 \cup R3 \cup R4 \cup R5 \cup R6 \cup R7 \cup R8 \cup R9 \cup R10 \cup R11 \cup R12 \cup R13 \cup R14
 
 (* rules whose fragment is a whole declaration are site-independent *)
 SiteFree(r) == r.rule \in {"redeclared", "return", "bang"} /\ r.a \in {"fn", "type", "param", "ok", "wrongtype", "missingvalue",
